@@ -71,7 +71,19 @@ Definition ext_of3 (sha : table) (rng : list (Z * Z)) : fenv_t :=
       Some (fun args => match args with [VInt k] => rng_lookup rng k | _ => Exc TypeError end)
     else ext_of sha name.
 
+(* + a generic logged table: (external primitive, arguments) -> result, as the wrappers saw them *)
+Fixpoint args_same (a b : list val) : bool :=
+  match a, b with [], [] => true | x :: r, y :: q => val_same x y && args_same r q | _, _ => false end.
+Fixpoint tbl_lookup (t : list (string * list val * R val)) (name : string) (args : list val) : R val :=
+  match t with
+  | [] => Exc Unmodelled
+  | (n, a, r) :: rest => if String.eqb n name && args_same a args then r else tbl_lookup rest name args
+  end.
+Definition ext_of4 (sha : table) (t : list (string * list val * R val)) : fenv_t :=
+  fun name => if existsb (fun e => String.eqb (fst (fst e)) name) t then Some (tbl_lookup t name) else ext_of sha name.
+
 Inductive case :=
+| SemT (sha : list (string * string)) (tbl : list (string * list val * R val)) (f : string) (args : list val) (expected : R val)
 | SemR (sha : list (string * string)) (rng : list (Z * Z)) (f : string) (args : list val) (expected : R val)
 | Sem (sha : list (string * string)) (f : string) (args : list val) (expected : R val)
 | SemE (sha : list (string * string)) (ent : list (list Z * option string)) (f : string) (args : list val) (expected : R val).
@@ -84,6 +96,14 @@ Definition check_case (c : case) : Z :=
       match build genv fuel_default asts (ext_of (hextable sha)) f with   (* = fenv_all, by PyAst.build_chain *)
       | Some sem => match sem args with
                     | Exc Unmodelled => 4          (* the semantics refuses to describe this call: outside the fragment, tallied *)
+                    | r => if R_same r expected then 0 else 1
+                    end
+      | None => 1
+      end
+  | SemT sha tbl f args expected =>
+      match build genv fuel_default asts (ext_of4 (hextable sha) tbl) f with
+      | Some sem => match sem args with
+                    | Exc Unmodelled => 4
                     | r => if R_same r expected then 0 else 1
                     end
       | None => 1
